@@ -45,6 +45,7 @@ type JobCfg struct {
 	MaxPaths      int
 	Witnesses     int // max witnesses kept for native validation
 	QueryTimeoutMs int
+	Redirect       map[string]string // callee -> harness function standing in for it (a summary justified elsewhere)
 
 	Known map[string]KnownFinding
 }
@@ -173,6 +174,9 @@ func runJob(prog *ssa.Program, cfg *JobCfg, nworkers int) *JobResult {
 			defer wg.Done()
 			w := &worker{id: id, tf: NewTF(), solver: NewSolver(solverBin, "-in")}
 			w.solver.timeout = cfg.QueryTimeoutMs
+			if tp := os.Getenv("GOSYM_TEE"); tp != "" && id == 0 {
+				w.solver.tee, _ = os.Create(tp)
+			}
 			defer func() {
 				mu.Lock()
 				st := w.solver.Stats
@@ -181,6 +185,7 @@ func runJob(prog *ssa.Program, cfg *JobCfg, nworkers int) *JobResult {
 				res.Solver.Unsat += st.Unsat
 				res.Solver.Unknown += st.Unknown
 				res.Solver.HardQueries += st.HardQueries
+				res.Solver.Escalated += st.Escalated
 				res.Solver.Time += st.Time
 				mu.Unlock()
 				w.solver.Close()
@@ -430,6 +435,6 @@ func (r *JobResult) summary() string {
 		st = append(st, fmt.Sprintf("%s=%d", k, v))
 	}
 	sort.Strings(st)
-	return fmt.Sprintf("job %-28s paths=%d [%s] instrs=%d forks=%d asserts=%d queries=%d (hard %d, unknown %d) solver=%.1fs wall=%.1fs viols=%d",
-		r.Cfg.Name, r.Paths, strings.Join(st, " "), r.Instrs, r.Forks, r.Asserts, r.Solver.Queries, r.Solver.HardQueries, r.Solver.Unknown, r.Solver.Time.Seconds(), r.Wall.Seconds(), len(r.Viols))
+	return fmt.Sprintf("job %-28s paths=%d [%s] instrs=%d forks=%d asserts=%d queries=%d (hard %d/esc %d, unknown %d) solver=%.1fs wall=%.1fs viols=%d",
+		r.Cfg.Name, r.Paths, strings.Join(st, " "), r.Instrs, r.Forks, r.Asserts, r.Solver.Queries, r.Solver.HardQueries, r.Solver.Escalated, r.Solver.Unknown, r.Solver.Time.Seconds(), r.Wall.Seconds(), len(r.Viols))
 }
